@@ -879,6 +879,11 @@ class Interp:
                 self.labels.add("explicit-component-context-parent")
                 rc = Context(current_context())
             else:
+                if op["idx"] % 5 == 3:
+                    from harness.engines.ctxstack import empty_context_class
+
+                    Context = empty_context_class()  # noqa: N806 - a Context subclass whose instances are falsy
+                    self.labels.add("falsy-context-subclass")
                 rc = Context(self.real[parent]) if op["explicit"] else Context()
                 if self.dead_ids and id(rc) not in self.dead_ids:
                     # try to get the new context allocated where a dropped one used to be
